@@ -518,6 +518,7 @@ def run(rep):
                 ck.check('ackermann', b, j)
                 j += 1
     n = 250 if quick else 40000
+    rep.share(0.6)
     for k in range(n):
         if rep.out_of_time():
             rep.notes.append('cnf workload truncated at %d' % k)
@@ -530,6 +531,7 @@ def run(rep):
                 ck.check(proc, b, j)
                 j += 1
     n = 120 if quick else 20000
+    rep.share(1.0)
     for k in range(n):
         if rep.out_of_time():
             rep.notes.append('ackermann workload truncated at %d' % k)
